@@ -466,7 +466,14 @@ int SimulateMips::execute()
     case 0x00:
       if (((opcode >> 6) & 0x3ff) == 0 && (opcode & 0x3f) == 0x1a)
       {
-        // div
+        // div (the result is unpredictable for a zero divisor: leave hi/lo)
+        if (reg[rt] == 0) { break; }
+        if (reg[rs] == (int32_t)0x80000000 && reg[rt] == -1)
+        {
+          hi = 0;
+          lo = reg[rs];
+          break;
+        }
         hi = reg[rs] % reg[rt];
         lo = reg[rs] / reg[rt];
         break;
@@ -475,6 +482,7 @@ int SimulateMips::execute()
       if (((opcode >> 6) & 0x3ff) == 0 && (opcode & 0x3f) == 0x1b)
       {
         // divu
+        if (reg[rt] == 0) { break; }
         hi = reg[rs] % reg[rt];
         lo = reg[rs] / reg[rt];
         break;
